@@ -56,6 +56,10 @@ type Case struct {
 	Storm int `json:"storm,omitempty"`
 	// Big: the big-writes workload of targets "ufsbig" / "scriptbig" (big_test.go)
 	Big *Big `json:"big,omitempty"`
+	// Vers: how each raw connection starts its session (version_test.go):
+	// targets "scriptver" / "ufsver"; for "scriptraw" only tag and msize of the
+	// Tversion are taken from it (absent: NOTAG, the server's msize)
+	Vers []Ver `json:"vers,omitempty"`
 }
 
 const deadline = 30 * time.Second
@@ -138,6 +142,8 @@ func run(c *Case) error {
 		}
 		hx.Extra("max_overlap", atomic.LoadInt64(&ov.max))
 		return err // (its own non-trivial rule: bigRecord)
+	case "scriptver", "ufsver":
+		return runVer(c) // (its own non-trivial rule)
 	default:
 		err = fmt.Errorf("harness: target %q", c.Target)
 	}
@@ -706,7 +712,16 @@ func runScriptRaw(c *Case) error {
 			if c.Dotu {
 				ver = "9P2000.u"
 			}
-			if r, err := cl.Version(8192, ver); err != nil || r.Type != ref9p.Rversion {
+			if ci < len(c.Vers) {
+				// a raw client's Tversion may carry any tag and ask for another msize
+				v := c.Vers[ci]
+				cl.Dotu = c.Dotu
+				r, err := cl.RPCTag(&ref9p.Msg{Type: ref9p.Tversion, Tag: v.Tag, Msize: v.Msize, Version: ver})
+				if err != nil || r.Type != ref9p.Rversion || r.Version != ver || r.Msize != min(v.Msize, 8192) {
+					f.set("conn %d: Tversion tag %d msize %d %q: %v %v", ci, v.Tag, v.Msize, ver, r, err)
+					return
+				}
+			} else if r, err := cl.Version(8192, ver); err != nil || r.Type != ref9p.Rversion {
 				f.set("version: %v", err)
 				return
 			}
@@ -777,7 +792,9 @@ func execute(test string, c *Case) error {
 	hx.Journal(test, c)
 	hx.Eval()
 	hx.Label(fmt.Sprintf("target=%s nconn=%d", c.Target, c.NConn))
-	if c.Big != nil {
+	if len(c.Vers) > 0 && c.Target != "scriptraw" {
+		hx.Label(fmt.Sprintf("sessionstart debug=%v procs=%d", c.Debug, c.Procs))
+	} else if c.Big != nil {
 		hx.Label(fmt.Sprintf("bigwrites writers=%s blk=%s mode=%q small=%v debug=%v procs=%d", bucketW(c.Big.Writers), bucketBlk(c.Big.Blk), c.Big.Mode, c.Big.Small > 0, c.Debug, c.Procs))
 	} else {
 		hx.Label(fmt.Sprintf("g=%s debug=%v flush=%v procs=%d", bucket(c.G), c.Debug, c.Flush, c.Procs))
@@ -785,7 +802,15 @@ func execute(test string, c *Case) error {
 	if c.Target == "ufs" {
 		hx.Label(fmt.Sprintf("ufs root=%q together=%v fresh-server-storms=%v", c.RootForm, c.Together && c.NConn > 1, c.Storm > 0 && c.NConn > 1))
 	}
-	if c.Target != "scriptraw" && c.Big == nil {
+	if c.Target == "scriptraw" && len(c.Vers) > 0 {
+		ord, low := false, false
+		for _, v := range c.Vers {
+			ord = ord || v.Tag != ref9p.NOTAG
+			low = low || v.Msize < 8192
+		}
+		hx.Label(fmt.Sprintf("scriptraw tversion ordinary-tag=%v lower-msize=%v", ord, low))
+	}
+	if c.Target != "scriptraw" && c.Big == nil && len(c.Vers) == 0 {
 		during := false
 		for _, ops := range c.Ops {
 			for _, op := range ops {
@@ -849,6 +874,11 @@ func TestPropWorkloads(t *testing.T) {
 			NConn: rapid.IntRange(1, 4).Draw(t, "nconn"), G: rapid.IntRange(2, 16).Draw(t, "g"), Flush: rapid.Bool().Draw(t, "flush"),
 			Debug: rapid.IntRange(0, 2).Draw(t, "debug") == 0, Churn: rapid.IntRange(0, 4).Draw(t, "churn"), Perturb: rapid.Uint64().Draw(t, "perturb"),
 			Procs: rapid.SampledFrom([]int{2, 4, 16}).Draw(t, "procs"), Maxpend: rapid.SampledFrom([]int{0, 8}).Draw(t, "maxpend")}
+		if c.Target == "scriptraw" {
+			for ci := 0; ci < c.NConn; ci++ {
+				c.Vers = append(c.Vers, Ver{Tag: rapid.SampledFrom(verTags).Draw(t, "vtag"), Msize: rapid.SampledFrom([]uint32{1024, 4096, 8192, 8192, 65536}).Draw(t, "vmsize")})
+			}
+		}
 		if c.Target != "scriptraw" {
 			c.Pre = rapid.SliceOfN(rapid.SampledFrom(deepKinds), 0, 3).Draw(t, "pre")
 		}
